@@ -1,14 +1,22 @@
 /- Line-protocol model driver for C19.
-    init <frame> <stackstart> <stacktop> <capacity>      set the fiber state            -> state line
-    push <n>                                             janet_fiber_pushn              -> state line
+    init <frame> <stackstart> <stacktop> <capacity>      set the fiber state (no saved frames) -> state line
+    fnew <capacity> <slotcount>                          janet_fiber(thunk, capacity, 0, NULL)  -> state line | "arity"
+    push <n>                                             janet_fiber_pushn              -> state line | "stack overflow"
     tail <slotcount> <arity> <min> <max> <vararg 0|1>    janet_fiber_funcframe_tail     -> state line | "arity"
     call <slotcount> <arity> <min> <max> <vararg 0|1>    janet_fiber_funcframe          -> state line | "arity"
+    ret                                                  janet_fiber_popframe           -> state line
+    overflow <cap> <slot0> <maxstack> <tailfirst 0|1> <slot> <arity> <nargs>
+                                                         fresh fiber running a thunk of <slot0> slots that (tail-)calls a
+                                                         function of <slot> slots, which calls itself non-tail with <nargs>
+                                                         arguments, through JOP_CALL's maxstack test, until the first error
+                                                                                         -> "<calls that succeeded> <error>"
     rankok                                               certificate check on Gen graph -> "true" | "false <a> <b>"
    state line: "<frame> <stackstart> <stacktop> <capacity>"
 -/
 import Driver.Util
 import JanetModel.Depth.Model
 import JanetModel.Depth.Tail
+import JanetModel.Depth.FiberStack
 import JanetModel.Gen.Depth
 open Driver JanetModel.Depth
 
@@ -16,35 +24,66 @@ def showF (f : Fiber) : String := s!"{f.frame} {f.stackstart} {f.stacktop} {f.ca
 
 def nats (ts : List String) : Option (List Nat) := ts.mapM (fun t => t.toNat?)
 
-def step (f : Fiber) (toks : List String) : Fiber × String :=
+/-- the C harness calls the frame functions directly (no maxstack test): maxstack = "infinite" here -/
+def noLimit : Nat := 4294967296
+
+def step (v : VFiber) (toks : List String) : VFiber × String :=
   match toks with
   | "init" :: rest =>
     match nats rest with
-    | some [a, b, c, d] => let f' : Fiber := ⟨a, b, c, d⟩; (f', showF f')
-    | _ => (f, "bad-op")
+    | some [a, b, c, d] => let v' : VFiber := ⟨⟨a, b, c, d⟩, [], noLimit⟩; (v', showF v'.f)
+    | _ => (v, "bad-op")
+  | ["fnew", c, s] =>
+    match c.toNat?, s.toNat? with
+    | some c, some s =>
+      match fiberNew c ⟨s, 0, 0, 0, false⟩ noLimit with
+      | some v' => (v', showF v'.f)
+      | none => (v, "arity")
+    | _, _ => (v, "bad-op")
   | ["push", n] =>
     match n.toNat? with
-    | some k => let f' := pushn f k; (f', showF f')
-    | none => (f, "bad-op")
+    | some k =>
+      match vpushn v k with
+      | .ok v' => (v', showF v'.f)
+      | .error e => (v, e)
+    | none => (v, "bad-op")
   | "tail" :: rest =>
     match nats rest with
-    | some [s, a, mn, mx, v] =>
-      match funcframeTail f ⟨s, a, mn, mx, v != 0⟩ with
-      | some f' => (f', showF f')
-      | none => (f, "arity")
-    | _ => (f, "bad-op")
+    | some [s, a, mn, mx, vr] =>
+      match vtail v ⟨s, a, mn, mx, vr != 0⟩ with
+      | .ok v' => (v', showF v'.f)
+      | .error e => (v, e)
+    | _ => (v, "bad-op")
   | "call" :: rest =>
     match nats rest with
-    | some [s, a, mn, mx, v] =>
-      match funcframe f ⟨s, a, mn, mx, v != 0⟩ with
-      | some f' => (f', showF f')
-      | none => (f, "arity")
-    | _ => (f, "bad-op")
+    | some [s, a, mn, mx, vr] =>
+      match vcall v ⟨s, a, mn, mx, vr != 0⟩ with
+      | .ok v' => (v', showF v'.f)
+      | .error e => (v, e)
+    | _ => (v, "bad-op")
+  | ["ret"] => let v' := vret v; (v', showF v'.f)
+  | "overflow" :: rest =>
+    match nats rest with
+    | some [cap, s0, m, tf, s, a, n] =>
+      match fiberNew cap ⟨s0, 0, 0, 0, false⟩ m with
+      | none => (v, "arity")
+      | some v0 =>
+        let fn : Fn := ⟨s, a, a, a, false⟩
+        -- the thunk pushes the arguments and enters the recursive function (tail call in tail position)
+        let first := match vpushn v0 n with
+          | .error e => Except.error e
+          | .ok v1 => if tf != 0 then vtail v1 fn else vcall v1 fn
+        match first with
+        | .error e => (v, s!"0 {e}")
+        | .ok v2 =>
+          let r := overflowDepth (m + 8) v2 n fn
+          (v, s!"{r.1 + 1} {r.2}")
+    | _ => (v, "bad-op")
   | ["rankok"] =>
-    if rankOK JanetModel.Gen.Depth.cg JanetModel.Gen.Depth.rank then (f, "true")
+    if rankOK JanetModel.Gen.Depth.cg JanetModel.Gen.Depth.rank then (v, "true")
     else match firstBadEdge JanetModel.Gen.Depth.cg JanetModel.Gen.Depth.rank with
-      | some (a, b) => (f, s!"false {a} {b}")
-      | none => (f, "false node")
-  | _ => (f, "bad-op")
+      | some (a, b) => (v, s!"false {a} {b}")
+      | none => (v, "false node")
+  | _ => (v, "bad-op")
 
-def main : IO Unit := runLoop (⟨0, 0, 0, 0⟩ : Fiber) step
+def main : IO Unit := runLoop (⟨⟨0, 0, 0, 0⟩, [], noLimit⟩ : VFiber) step
